@@ -32,7 +32,7 @@ fn env_text(r: &mut Rng) -> String {
 
 const ALPHA_FEATS: [&str; 9] = ["lab", "cor", "dor", "phr", "place", "long", "overlong", "stress", "sec.stress"];
 
-fn gen(r: &mut Rng) -> Case {
+pub(crate) fn gen(r: &mut Rng) -> Case {
     let word = rand_word(r, &WordCfg { max_sylls: 5, ..WordCfg::default() });
     let mut c = Case { family: String::new(), rule: String::new(), word, a: String::new(), b: String::new(), x: String::new() };
     match r.below(10) {
@@ -154,7 +154,7 @@ pub fn judge(rep: &mut Report, c: &Case) {
 }
 
 pub fn explore(ctx: &Ctx, shard: usize, n: usize) -> Report {
-    drive::cases(ctx, shard, n, RULE, 0x07, 200_000, 10_000_000, |r, rep, _| { let c = gen(r); judge(rep, &c); })
+    drive::cases(ctx, shard, n, RULE, 0x07, 200_000, 60_000_000, |r, rep, _| { let c = gen(r); judge(rep, &c); })
 }
 
 pub fn replay(_ctx: &Ctx, v: &Value) -> Report {
